@@ -43,7 +43,17 @@ RULE = ("seeded generator over classes {non-negative / non-positive / sign-cross
         "differences and in combinations with int and float coefficients and operands of mixed dtypes; exact and grid landscapes of "
         "int64 / int32 diagrams (grid ends given or left to the constructor, also with compute=False); critical pairs given as "
         "tuples or as one float / int ndarray per depth} x "
-        "p in {1,2,3,4,5,7,10} and real p in {1.5, 2.5, pi}; a case is non-trivial when the call succeeds and "
+        "p in {1,2,3,4,5,7,10} and real p in {1.5, 2.5, pi}; "
+        "non-default exponents: large integer p in {11,16,24,31,32,33,40,48,64,100,113,128,200,256}, large real p in "
+        "{12.5,31.5,32.5,40.25,64.5,100.5}, p just above 1 in {1.000001,1.001,1.0625}, and an integer p handed over as a Python float "
+        "/ np.int64 / np.int32 / np.float64, on breakpoint lists (all sign classes, nearly flat, scaled by 2^-6..2^5, tuple / ndarray "
+        "containers), exact and grid landscapes of diagrams, their differences and linear combinations and grid landscapes from values "
+        "of every dtype, whose largest |value| is known in advance so that p is drawn only from the exponents for which |f|^p of "
+        "P, c*P and P+M stays inside the binary64 range (outside it the code under test overflows / underflows: finding "
+        "C10-pnorm-large-p-range, whose cases - the same exponents at scales 2^-20..2^20 - are generated only while known_findings.json "
+        "lists it); landscapes with full-mantissa ordinates keep nseg * p^2 <= 10000 (cost of the exact evaluation inside Coq), "
+        "short dyadic ordinates go up to p = 256; "
+        "a case is non-trivial when the call succeeds and "
         "the reported landscape has a sloped segment with non-zero integral; distinct = distinct JSON input")
 TRUSTED_BASE = [
     "Coq 8.16.1 kernel; vm_compute for the rational models (no native_compute)",
@@ -56,6 +66,8 @@ ASSUMPTIONS = [
     "the landscape whose norm is taken is the one the implementation reports (critical_pairs / start, stop, "
     "num_steps, values); correctness of the arithmetic that produced it is property C09",
     "binary64 rounding of the implementation is bounded by the 1e-9 relative tolerance, not proved",
+    "large exponents (p > 10) are generated only at magnitudes where |f|^p stays inside the binary64 range (see _fits); that the "
+    "norm is also right where |f|^p leaves that range is NOT checked while fixes/C10_pnorm_large_p_range.patch is not applied",
     "np.linspace(start, stop, n)[i] = start + i (stop-start)/(n-1) up to rounding",
     "single-precision CRITICAL PAIRS / diagrams are not generated: _p_norm then works in float32 (relative error ~1e-8, "
     "outside the binary64 tolerance); float32 `values` arrays are generated (the grid, hence the pairs, is binary64), with "
@@ -521,6 +533,8 @@ def _case(rng, cls, j=None):
         for _ in range(50):
             r, other, lo, hi, nseg = _big_p_recipe(rng, real, light=rng.random() < (0.5 if real else 0.7))
             pool = {"big_p": BIG_INT_PS, "big_p_real": BIG_REAL_PS, "near_one_p": NEAR_ONE_PS, "p_rep": INT_PS + BIG_INT_PS[:8]}[cls]
+            if cls == "near_one_p" and j is not None:
+                pool = [NEAR_ONE_PS[j % len(NEAR_ONE_PS)]]      # every exponent just above 1 is met in every run
             if not real:
                 pool = [q for q in pool if nseg * q * q <= HEAVY_BUDGET]
             p = _pick_big_p(rng, lo, hi, pool)
@@ -571,12 +585,10 @@ def generate(rng, tier):
         seen[cls] += 1
     cases += [_case(rng, "vals_dtype_big", 7 * i) for i in range(n_big)]
     # non-default exponents
-    n_bp, n_bpr, n_one, n_rep = (36, 5, 3, 8) if tier == "quick" else (1200, 60, 40, 300)
-    import os
-    if os.environ.get("C10_NOBIG"): n_bp = n_bpr = n_one = n_rep = 0
+    n_bp, n_bpr, n_one, n_rep = (36, 5, 4, 8) if tier == "quick" else (1200, 60, 40, 300)
     cases += [_case(rng, "big_p") for _ in range(n_bp)]
     cases += [_case(rng, "big_p_real") for _ in range(n_bpr)]
-    cases += [_case(rng, "near_one_p") for _ in range(n_one)]
+    cases += [_case(rng, "near_one_p", i) for i in range(n_one)]
     cases += [_case(rng, "p_rep", i) for i in range(n_rep)]
     if _range_finding_listed():
         cases += [_case(rng, "big_p_range") for _ in range(4 if tier == "quick" else 60)]
